@@ -1,6 +1,7 @@
 import Driver.Common
 import Logrange.Model.DateParser
 import Logrange.Model.DateLineParser
+import Logrange.Model.DateText
 import Logrange.Generated.C20
 /-! Model driver for C20 (timestamp text → instant). Requests (byte strings hex, `-` = empty):
 
@@ -12,6 +13,8 @@ import Logrange.Generated.C20
 * `tparse <layout> <value>`              — `time.Parse(layout, value)` (Local = UTC)
 * `tformat <layout> Y M D h m s ns wd`   — `time.Format` for the covered elements
 * `find <regexp> <text>`                 — unanchored leftmost-first search, the matched substring
+* `render col|lql <idx> Y M D h m s ns wd <fracDigits> <offMin> <zname>` — `renderLayout` of the list's format: the text the
+  round-trip / first-match theorems are about (compared with Go's `time.Format` of the layout the format denotes)
 * `lp.reset` / `lp.line <nowY> <nowM> <nowD> <line>` — a fresh collector line parser (default list) / its next line:
   `dated <idx> <civil>` | `carried <civil>` | `carried zero`, then ` | skip=<0|1> cnt=<n> maxskip=<n> cur=<i|->`
 
@@ -101,6 +104,17 @@ def stepU (toks : List String) : String :=
         | some b => (s!"text {hex b}")
         | none => ("none"))
      | _, _, _, _, _, _, _, _ => ("bad-op"))
+  | ["render", lst, idx, y, mo, d, h, mi, s, ns, wd, fd, off, zn] =>
+    (match idx.toNat?, y.toNat?, mo.toNat?, d.toNat?, h.toNat?, mi.toNat?, s.toNat?, ns.toNat?, wd.toNat?, fd.toNat?, off.toInt? with
+     | some idx, some y, some mo, some d, some h, some mi, some s, some ns, some wd, some fd, some off =>
+       (match (if lst == "col" then colFmts else lqlFmts)[idx]? with
+        | some cf =>
+          (match renderLayout cf.layout { year := y, month := mo, day := d, hour := h, min := mi, sec := s, nsec := ns, wd := wd,
+                                          fracDigits := fd, offMin := off, zname := unhex zn } with
+           | some b => s!"text {hex b}"
+           | none => "none")
+        | none => "none")
+     | _, _, _, _, _, _, _, _, _, _, _ => "bad-op")
   | ["find", r, t] =>
     (match parseRegexp (unhex r) with
      | none => ("unsupported 0 1")
